@@ -91,6 +91,12 @@ def so_wave(time, zpos, trad_bc_ev, opac, alpha):
     uans = usolution(xpos, tau, epsilon)
     vans = vsolution(xpos, tau, epsilon, uans)
 
+    # the energy densities are non-negative; quadrature error can leave them
+    # slightly below zero ahead of the wave, which would make the fourth
+    # roots below complex
+    uans = max(uans, 0.0)
+    vans = max(vans, 0.0)
+
     # compute the physical solution
     erad = uans * ener_in
     trad = (erad / asol)**0.25
